@@ -101,6 +101,12 @@ def core_scripts(r, n):
                     q = r.choice(names) if (len(rels) > 1 or r.random() < 0.5) else None
                     items.append(A.iexpr(A.col(q, r.choice(cols)), r.choice([None, None, r.choice(cols)])))
             q = A.select(items, rels, comma=r.random() < 0.3)
+            if r.random() < 0.2 and items[0][0] != "star":
+                # UNION of two plain SELECTs of the same arity (second branch: another table, own names)
+                t2 = r.choice([t for t in tabs if t != tgt])
+                al2 = r.choice([None, "u0"])
+                items2 = [A.iexpr(A.col(r.choice([None, al2 or t2[1]]), r.choice(cols)), None) for _ in items]
+                q = A.union(q, A.select(items2, [A.rtable(t2[0], t2[1], al2)]))
             kind = r.choice(["insert", "insert", "insertc", "ctas", "view"])
             if kind == "insertc" and items[0][0] != "star":
                 ss.append(("insert", tgt, r.sample(cols + ["k", "m"], len(items)), q))
@@ -206,9 +212,9 @@ def main() -> int:
     import astgen
     from common import coq_eval
     cs = core_scripts(r, 150 if quick else 2500)
-    exprs = ["(if forallb core_ok [%s] then \"in:\" else \"out:\") ++ join \";\" (spec_script_pairs \"\" [%s])"
+    exprs = ["(if forallb core_ok_u [%s] then \"in:\" else \"out:\") ++ join \";\" (spec_script_pairs \"\" [%s])"
              % ("; ".join(astgen.g_stmt(x) for x in ss), "; ".join(astgen.g_stmt(x) for x in ss)) for ss in cs]
-    spec_out = coq_eval("From SV Require Import Ast.Spec Tree.LemmaB Tree.LemmaBProofs Tree.ScriptExact.\nOpen Scope string_scope.", exprs, shard=200)
+    spec_out = coq_eval("From SV Require Import Ast.Spec Tree.LemmaB Tree.LemmaBProofs Tree.ScriptExact Tree.ScriptExactUnion.\nOpen Scope string_scope.", exprs, shard=200)
     impl_out = t2tie.summaries([{"sql": "\n".join(astgen.to_sql(x) for x in ss), "dialect": "ansi", "metadata": None, "config": {}} for ss in cs])
     dist["s3_core_scripts"] = {"scripts": len(cs), "inside_guard": 0, "nonempty": 0, "statements": {}}
     for ss, sp, im in zip(cs, spec_out, impl_out):
@@ -227,7 +233,7 @@ def main() -> int:
         if got != exp:
             spec_failures.append({"suite": "S3-core-script-vs-specification", "sql": sql, "impl_pairs": got, "spec_script_pairs": exp,
                                   "spec": "the end-to-end pairs of a script are the pairs (unwritten source column, unread target column) "
-                                          "connected by one or more of the statements' column flows (theorem c04_script_exact_on_core)"})
+                                          "connected by one or more of the statements' column flows (theorems c04_script_exact_on_core, c04_script_exact_on_core_with_unions)"})
     ok = [x for x in res if "summary" in x and x["summary"].split("#", 1)[1]]
     if ok:
         ck.sample({"script": ok[0]["rec"]["sql"], "pairs": ok[0]["summary"].split("#", 1)[1][:300]})
